@@ -472,6 +472,68 @@ class Fragment:
         self.text = self.text[:open_paren + 1] + new_inner + self.text[close:]
         self.note('V-CLOSURE', 1, f"closure in {call!r}: params `{mm.group(3)}` typed as `{params}`, result named, ensures added; body kept verbatim")
 
+    def expand_local_macro(self, name):
+        """V-MACRO: a single-arm `macro_rules! name { (params) => {{ body }}; }` defined inside the function is removed and
+        every invocation `name!(args);` is replaced by `{ body[params := args] }` (textual substitution, what rustc does)."""
+        s = self._src()
+        mm = re.search(r'macro_rules!\s*' + re.escape(name) + r'\s*\{', self.text)
+        if not mm:
+            raise ScanError(f"{self.what}: local macro {name} not found")
+        ob = mm.end() - 1
+        cb = s.match_close(ob)
+        inner = self.text[ob + 1:cb]
+        pm = re.match(r'\s*\((?P<params>[^)]*)\)\s*=>\s*\{', inner)
+        if not pm:
+            raise ScanError(f"{self.what}: macro {name}: unsupported arm shape")
+        params = re.findall(r'\$(\w+):\w+', pm.group('params'))
+        body_open = ob + 1 + pm.end() - 1
+        body_close = s.match_close(body_open)
+        body = self.text[body_open + 1:body_close]
+        # drop the macro definition (and a trailing `;`)
+        end = cb + 1
+        while end < len(self.text) and self.text[end] in ' \t':
+            end += 1
+        if end < len(self.text) and self.text[end] == ';':
+            end += 1
+        self.text = self.text[:mm.start()] + self.text[end:]
+        # expand invocations
+        cnt = 0
+        while True:
+            s = self._src()
+            im = None
+            for cand in re.finditer(re.escape(name) + r'!\(', self.text):
+                if s.mask[cand.start()]:
+                    im = cand
+                    break
+            if not im:
+                break
+            op = im.end() - 1
+            cl = s.match_close(op)
+            args, depth, cur = [], 0, ''
+            for q in range(op + 1, cl):
+                ch = self.text[q]
+                if s.mask[q] and ch in '([{':
+                    depth += 1
+                elif s.mask[q] and ch in ')]}':
+                    depth -= 1
+                if s.mask[q] and ch == ',' and depth == 0:
+                    args.append(cur.strip()); cur = ''
+                else:
+                    cur += ch
+            if cur.strip():
+                args.append(cur.strip())
+            if len(args) != len(params):
+                raise ScanError(f"{self.what}: macro {name}: arity mismatch")
+            b = body
+            for pn, av in zip(params, args):
+                b = re.sub(r'\$' + pn + r'\b', lambda _m, av=av: av, b)
+            e = cl + 1
+            if e < len(self.text) and self.text[e] == ';':
+                e += 1
+            self.text = self.text[:im.start()] + '{' + b + '}' + self.text[e:]
+            cnt += 1
+        self.note('V-MACRO', cnt, f"local macro_rules! {name} expanded at {cnt} call sites by textual substitution of {params}")
+
     def desugar_assert(self):
         """V-ASSERT: `assert!(E);` -> `{ let __c: bool = E; if !__c { rust_panic(); } }` where rust_panic() requires false
         (so the absence of the panic is a proof obligation and Verus syntax may be used inside E)."""
@@ -639,6 +701,18 @@ class Fragment:
                 continue
             res.append((mm.start(), b))
         return res
+
+    def insert_after_loop(self, ordinal, text):
+        """ghost text right after the closing brace of the n-th loop of the function."""
+        ls = self.loops()
+        if ordinal < 1 or ordinal > len(ls):
+            self._lost(f'loop #{ordinal}')
+            return False
+        _, b = ls[ordinal - 1]
+        e = self._src().match_close(b)
+        self.text = self.text[:e + 1] + text + self.text[e + 1:]
+        self.note('V-SPEC', 1, f'ghost text after loop #{ordinal}')
+        return True
 
     def add_loop_spec(self, ordinal, spec):
         ls = self.loops()
